@@ -703,7 +703,9 @@ func init() {
 // releases the IP of a pod that is alive.
 func c03Concurrent(tier string) []*Scenario {
 	b := boundsFor(tier)
-	return append(famRecreate(false, b, ""), famRolling(false, b)...)
+	out := append(famRecreate(false, b, ""), famRolling(false, b)...)
+	// the release API next to the events of the old incarnation and the scheduling of the new one
+	return append(out, famAPIRelease(false, b)...)
 }
 
 func oracleC03Concurrent(w *world.World, s *coop.Sched, final bool) *Finding {
@@ -740,6 +742,7 @@ func c02Concurrent(tier string) []*Scenario {
 	}
 	out = append(out, famTwoDeletes(false, b)...)
 	out = append(out, famReloadReplacement(b)...)
+	out = append(out, famLagReplacement(b)...)
 	return out
 }
 
